@@ -155,6 +155,9 @@ pub fn run(sim: &Sim, prop: &str, tier: Tier) -> Outcome {
         )
     });
 
+    // (the device-level reading of "leaves the following ones queued" applies to receivers
+    // that do not buffer input internally; see link_hostile::reads_ahead)
+    let read_ahead = crate::link_hostile::reads_ahead(kind);
     let mut sent: usize = 0;
     let mut sent_end: Vec<usize> = Vec::new();
     let mut received: usize = 0;
@@ -185,12 +188,14 @@ pub fn run(sim: &Sim, prop: &str, tier: Tier) -> Outcome {
                 if out.cursor_after > start && *received < sent && out.cursor_after < sent_end[*received] {
                     sim.probe("poll_ended_on_partial_packet");
                 }
-                if live {
+                // once all data has arrived, a poll that delivers nothing must at least have
+                // taken input (a receiver may spread a long packet over several polls)
+                if live && !read_ahead && out.cursor_after == out.cursor_before {
                     return Some(fail(
                         prop,
                         "C13.live",
                         format!(
-                            "all data available and no more 'no data yet' answers, {} packet(s) outstanding, but the poll reported NoPacketReceived",
+                            "all data has arrived and the device no longer answers 'no data yet'; {} packet(s) are outstanding, but the poll reported NoPacketReceived without taking any input",
                             sent - *received
                         ),
                         sig("live"),
@@ -228,7 +233,7 @@ pub fn run(sim: &Sim, prop: &str, tier: Tier) -> Outcome {
                         sig("packet-differs"),
                     ));
                 }
-                if out.cursor_after != sent_end[*received] {
+                if !read_ahead && out.cursor_after != sent_end[*received] {
                     return Some(fail(
                         prop,
                         "C13.one",
@@ -328,8 +333,10 @@ pub fn run(sim: &Sim, prop: &str, tier: Tier) -> Outcome {
 
     // ---- phase B (liveness): data has arrived, no more "no data yet"
     wire.borrow_mut().drain = true;
-    let outstanding = npk - received;
-    for _ in 0..outstanding {
+    // every poll now either delivers a packet or takes input: bounded by packets + frames
+    let mut budget = (npk - received) + total_frames + 2;
+    while received < npk && budget > 0 {
+        budget -= 1;
         if let Some(o) = do_poll(&mut rx, sent, &sent_end, &mut received, true) {
             return o;
         }
